@@ -15,6 +15,8 @@ import world  # noqa: E402
 def main():
     payload = json.load(sys.stdin)
     cases = payload["cases"]
+    if payload.get("explicit_enabled"):
+        render_checker.ENABLED_SUFFIX = ", enabled=True"
     src = render_checker.render_module(cases)
     path = os.path.join(os.getcwd(), "icv_cases_%d.py" % os.getpid())
     with open(path, "w") as fh:
